@@ -14,6 +14,7 @@ mod p06;
 mod p07;
 mod p08;
 mod p09;
+mod p13;
 mod zlib;
 mod zmodel;
 mod p17;
@@ -99,6 +100,7 @@ fn main() {
         "C07" => p07::run(&mut c),
         "C08" => p08::run(&mut c),
         "C09" => p09::run(&mut c),
+        "C13" => p13::run(&mut c),
         "C17" => p17::run(&mut c),
         "C18" => p18::run(&mut c),
         "C19" => p19::run(&mut c),
